@@ -112,7 +112,7 @@ impl Rig for PcRig {
     fn runs(&self, tier: Tier) -> u64 {
         match tier {
             Tier::Quick => 3_000_000,
-            Tier::Thorough => 100_000_000,
+            Tier::Thorough => 300_000_000,
         }
     }
     fn gen(&self, rng: &mut Rng, _idx: u64, _tier: Tier) -> PcScenario {
